@@ -124,6 +124,24 @@ def prove(pc, goal, timeout_ms=10000, axioms=True):
             lem2 = lem
             r2, _ = _check(pc + lem2 + ax, goal, timeout_ms)
             if r2 == z3.unsat: return Verdict("proved", "z3", time.time() - t0, lemmas=len(lem2), detail="with reduction axioms", query=(pc + lem2 + ax, goal))
+    if r != z3.unsat:
+        # before a model of the abstraction (reduction nodes are uninterpreted) is reported as a refutation: instantiate the nodes' bound
+        # facts at the query's Skolem constants / ground index terms, two levels deep (nested max/min/all/any)
+        cands = {}
+        def sk(t):
+            if z3.is_const(t) and t.decl().kind() == z3.Z3_OP_UNINTERPRETED and z3.is_int(t) and "!" in t.decl().name(): cands[t.sexpr()] = t
+            for ch in t.children(): sk(ch)
+        for t_ in pc + [goal]:
+            if not z3.is_quantifier(t_): sk(t_)
+        for a_ in list(R.collect_deep(pc + [goal]).values()):
+            if R.entry_of(a_).kind == "argmax": cands[a_.sexpr()] = a_
+        if cands and len(cands) <= 12:
+            inst = R.instance_axioms(pc + [goal], list(cands.values()))
+            if inst:
+                lem3 = lem + congruence_lemmas(pc + inst, pc + inst + [goal], timeout_ms) if len(inst) < 120 else lem
+                r3, m3 = _check(pc + lem3 + inst, goal, timeout_ms)
+                if r3 == z3.unsat: return Verdict("proved", "z3", time.time() - t0, lemmas=len(lem3), detail="with instantiated reduction bounds", query=(pc + lem3 + inst, goal))
+                if r3 == z3.sat: r, m = r3, m3
     if r == z3.sat: return Verdict("refuted", "z3", time.time() - t0, model=m, lemmas=len(lem), detail="model of the quantifier-free core")
     return Verdict("unknown", "z3", time.time() - t0, lemmas=len(lem))
 
